@@ -929,6 +929,77 @@ pub fn spin_checks(report: &mut Report, property: &str) {
     }
 }
 
+/// The peer's end taken up while frames of the session's links are still queued for the session: a receiver
+/// whose own queue holds one frame keeps the session engine busy handing over a second delivery; meanwhile a
+/// sender queues `queued` pre-settled messages and the peer's end arrives; then the receiver takes a delivery
+/// and the engine goes on, with the end and the queued frames both waiting.  Returns what the peer sees on the
+/// session's channel from then on ("transfer" / "end:<error?>" …) and what `on_end` reports.
+pub fn run_end_with_frames_queued(queued: u32, with_error: bool) -> Result<(Vec<String>, String), String> {
+    use fe2o3_amqp_types::definitions::SenderSettleMode;
+    let rt = paused_runtime();
+    rt.block_on(async move {
+        let (cio, pio) = tokio::io::duplex(1 << 20);
+        let mut peer = Peer::new(pio);
+        let e = |x: PeerError| format!("{:?}", x);
+        let client = tokio::spawn(async move {
+            let mut conn = Connection::builder().container_id("c13-endq").open_with_stream(cio).await.map_err(|e| format!("open: {:?}", e))?;
+            let session = Session::begin(&mut conn).await.map_err(|e| format!("begin: {:?}", e))?;
+            Ok::<_, String>((conn, session))
+        });
+        peer.accept_open(&PeerOpen::default()).await.map_err(e)?;
+        peer.accept_begin(0, 0, 100_000, 100_000).await.map_err(e)?;
+        let (_conn, mut session) = client.await.map_err(|e| format!("{:?}", e))??;
+        let att = tokio::spawn(async move {
+            let s = Sender::builder().name("endq-s").target("q").sender_settle_mode(SenderSettleMode::Settled).attach(&mut session).await.map_err(|e| format!("attach s: {:?}", e))?;
+            let mut b = Receiver::builder().name("endq-r").source("q");
+            b.buffer_size = 1;
+            let r = b.attach(&mut session).await.map_err(|e| format!("attach r: {:?}", e))?;
+            Ok::<_, String>((s, r, session))
+        });
+        let sa = peer.accept_attach(0, 0, None, ReceiverSettleMode::First).await.map_err(e)?;
+        let _ = sa;
+        let f = Flow { next_incoming_id: Some(0), incoming_window: 100_000, next_outgoing_id: 0, outgoing_window: 100_000, handle: Some(Handle(0)), delivery_count: Some(0), link_credit: Some(1000), available: None, drain: false, echo: false, properties: None };
+        peer.send(0, Performative::Flow(f), &[]).await.map_err(e)?;
+        let _ra = peer.accept_attach(0, 1, Some(0), ReceiverSettleMode::First).await.map_err(e)?;
+        let (mut sender, mut receiver, mut session) = att.await.map_err(|e| format!("{:?}", e))??;
+        // two deliveries for a receiver whose queue holds one: the session engine waits for room
+        for id in 0..2u32 {
+            let t = transfer(1, Some(id), Some(id.to_be_bytes().to_vec()), Some(true), false);
+            peer.send(0, Performative::Transfer(t), &message_bytes(id as u64 + 1, 4)).await.map_err(e)?;
+        }
+        tokio::time::sleep(Duration::from_millis(200)).await;
+        for i in 0..queued {
+            let sendable = Sendable::builder().message(Message::from(Value::Uint(i))).settled(true).build();
+            sender.send(sendable).await.map_err(|e| format!("send {}: {:?}", i, e))?;
+        }
+        let err = if with_error { Some(definitions::Error::new(AmqpError::InternalError, None, None)) } else { None };
+        peer.send(0, Performative::End(End { error: err }), &[]).await.map_err(e)?;
+        tokio::time::sleep(Duration::from_millis(200)).await;
+        // the receiver takes a delivery: the engine goes on
+        let _ = tokio::time::timeout(Duration::from_secs(1), receiver.recv::<Value>()).await;
+        let mut seen = vec![];
+        peer.recv_timeout = Duration::from_secs(3);
+        loop {
+            match peer.recv_frame().await {
+                Ok((_, Performative::End(en), _)) => {
+                    seen.push(format!("end:{}", en.error.is_some() as u8));
+                    break;
+                }
+                Ok((_, Performative::Transfer(_), _)) => seen.push("transfer".into()),
+                Ok((_, Performative::Flow(_), _)) | Ok((_, Performative::Disposition(_), _)) => {}
+                Ok((_, other, _)) => seen.push(summarize(&other, 0)),
+                Err(_) => break,
+            }
+        }
+        let res = match tokio::time::timeout(Duration::from_secs(3), session.on_end()).await {
+            Err(_) => "pending".to_string(),
+            Ok(Ok(())) => "ok".to_string(),
+            Ok(Err(e)) => format!("{:?}", e).split('(').next().unwrap_or("").to_string(),
+        };
+        Ok((seen, res))
+    })
+}
+
 pub fn main(opts: &Opts) {
     // C14 reads the same runs for what it states: every call comes back, and reports the peer's error
     let c14 = opts.property == "C14";
@@ -1248,6 +1319,42 @@ fn correspondence(rng: &mut Rng, opts: &Opts, report: &mut Report) {
         link_lines.push(line);
         let first: Vec<u8> = sent.iter().take(1).cloned().collect();
         link_expect.push((format!("{:?} {}", first, res).replace(' ', "").replace("]", "] "), case));
+    }
+    // --- the peer's end taken up while frames of the session's links are still queued
+    if opts.property != "C14" {
+        for (queued, we) in [(48u32, false), (48, true), (8, false)] {
+            report.evaluations += 1;
+            report.count("peer_end_with_link_frames_queued");
+            report.nontrivial_case(fnv(&format!("endq{}{}", queued, we)));
+            let replay = json!({"property": "C13", "module": "life", "end_with_frames_queued": {"queued": queued, "with_error": we}});
+            match run_end_with_frames_queued(queued, we) {
+                Ok((seen, res)) => {
+                    let ends: Vec<&String> = seen.iter().filter(|x| x.starts_with("end:")).collect();
+                    if ends.len() != 1 {
+                        report.finding(Finding { kind: "violation", key: "peer-end-not-answered:link-frames-queued".into(), description: format!("the peer ended the session while {} frames of a sending link were queued for the session: {} end frames came back (the peer saw {:?}); on_end: {}", queued, ends.len(), seen.iter().rev().take(6).rev().collect::<Vec<_>>(), res), replay });
+                        continue;
+                    }
+                    if res == "pending" {
+                        report.finding(Finding { kind: "violation", key: "call-never-returned:link-frames-queued".into(), description: format!("on_end did not return after the peer's end (with {} link frames queued) had been answered", queued), replay });
+                        continue;
+                    }
+                    if let Ok(m) = run_driver(&["E reset".to_string(), format!("E peerendq {}", we as u8), "E result".to_string()]) {
+                        report.model_lines += 3;
+                        let imp_res = match res.as_str() {
+                            "ok" => "ok",
+                            "RemoteEndedWithError" => "remoteEndedWithError",
+                            "RemoteEnded" => "remoteEnded",
+                            "IllegalState" => "illegalState",
+                            _ => "other",
+                        };
+                        if m[1] != *ends[0] || (m[2] != imp_res && imp_res != "other") {
+                            report.finding(Finding { kind: "disagreement", key: "model-vs-implementation:session:end-with-frames-queued".into(), description: format!("peer's end ({}) with link frames queued: the model writes `{}` and reports {}, the implementation `{}` and {}", we, m[1], m[2], ends[0], res), replay });
+                        }
+                    }
+                }
+                Err(e) => report.finding(Finding { kind: "violation", key: "end-with-frames-queued-scenario-failed".into(), description: e, replay }),
+            }
+        }
     }
     let mut all = lines.clone();
     let off = all.len();
